@@ -89,7 +89,7 @@ package keeper
 //@   ensures err != nil ==> kvUnchanged()
 //@   ensures err == nil ==> msg.Authority == k.authority && storedDistParamsOK(k.Keeper)
 //@   ensures kvOnlyChanged(storeOf(k.storeKey), dpKey())
-//@   prop C13 C20
+//@   prop C13 C20x
 //@ loop msgServer.UpdateSubDistributorDestinationShareParam#1
 //@   invariant kvUnchanged()
 //@ loop msgServer.UpdateSubDistributorDestinationShareParam#2
@@ -104,6 +104,10 @@ package keeper
 //@   prop C13 C20
 //@ loop msgServer.UpdateSubDistributorBurnShareParam#1
 //@   invariant kvUnchanged()
+
+//@ // store iteration is not modelled: these accessors are assumed total (no claim about what they return)
+//@ func (k Keeper) GetAllStates(ctx) (list)
+//@   trusted
 
 //@ // ---- C20: entry points under the no-panic sweep (no functional claim here: they must not panic for any field values) ----
 //@ func (k Keeper) Params(c, req) (r0, r1)
